@@ -6,6 +6,8 @@ from pyvc.run import Item, native
 from specs import routes_regex as RR
 
 CANARIES = [
+    {'name': 'converter-strips-one-separator', 'file': 'clastic/route.py',
+     'old': "        return converter(value.replace('/', ''))", 'new': "        return converter(value[1:])"},
     {'name': 'int-fragment-allows-space-after-sign', 'file': 'clastic/route.py',
      'old': "_INT_PATTERN = r'\\ *[+-]?[0-9]+'", 'new': "_INT_PATTERN = r'[+-]?\\ *[0-9]+'"},
     {'name': 'strict-mode-tolerates-slashes', 'file': 'clastic/route.py',
